@@ -137,6 +137,12 @@ def random_history(rng, A, cls, kw, length, multi=False, pick=False, unsat_core=
         r = rng.random()
         if branchy and r > 0.80 and len(live) < 5:
             r = 0.90            # branch more often
+        elif branchy and 0.70 < r < 0.80:
+            r = 0.84            # simplify / downsize more often
+        if branchy and cls in ("SolverReplacement", "SolverReplacementCacheless") and rng.random() < 0.04:
+            x = BVS("x", W) if rng.random() < 0.5 else BVS("y", W)
+            H.append(["add_replacement", s, x, BVV(rng.randrange(m + 1), W), rng.random() < 0.5])
+            continue
         if unsat_core and r > 0.90:
             r = 0.96
         if r < 0.30:
@@ -186,22 +192,29 @@ def random_history(rng, A, cls, kw, length, multi=False, pick=False, unsat_core=
     return H
 
 
-def probe_battery(A, sids):
-    """queries issued after the last step of a history on every live solver"""
+def probe_battery(A, sids, variant=0):
+    """queries issued after the last step of a history on every live solver.
+    variant 0: solver by solver, exhaustive evals first (then min/max are served from the exhausted cache);
+    variant 1: min/max first, evals last; variant 2: like 1 but round-robin over the solvers, so that the same
+    query hits the branches of one tree back to back (shared-cache defects between branches need that)"""
     W = A["W"]
     m = (1 << W) - 1
-    P = []
+    per = {}
     for s in sids:
-        P.append(["satisfiable", s, []])
-        for e in A["exprs"][:4]:
-            P.append(["eval", s, e, m + 2, []])
-        for e in A["exprs"][:3]:
-            for sg in (False, True):
-                P.append(["min", s, e, sg, []])
-                P.append(["max", s, e, sg, []])
+        ev = [["eval", s, e, m + 2, []] for e in A["exprs"][:4]]
+        mm = [[c, s, e, sg, []] for e in A["exprs"][:3] for sg in (False, True) for c in ("min", "max")]
         x = A["exprs"][0]
-        for v in (0, 1, m):
-            P.append(["solution", s, x, BVV(v, W), [], True])
+        sol = [["solution", s, x, BVV(v, W), [], True] for v in (0, 1, m)]
+        sat = [["satisfiable", s, []]]
+        per[s] = sat + ev + mm + sol if variant == 0 else mm + sat + sol + ev
+    if variant != 2:
+        return [q for s in sids for q in per[s]]
+    P = []
+    n = max((len(v) for v in per.values()), default=0)
+    for i in range(n):
+        for s in sids:
+            if i < len(per[s]):
+                P.append(per[s][i])
     return P
 
 
@@ -447,6 +460,9 @@ def run_history(H, vars_, tid, cfg):
                 core = sol.unsat_core()
                 e["rets"] = [TM.ser(c) if isinstance(c, claripy.ast.Base) else ["NOTAST", type(c).__name__, [], []]
                              for c in core]
+            elif call == "add_replacement":
+                e["e"], e["v"] = op[2], op[3]
+                sol.add_replacement(B(op[2]), B(op[3]), invalidate_cache=bool(op[4]) if len(op) > 4 else True)
             elif call == "drop":
                 del S[s]
             else:
@@ -492,7 +508,7 @@ def main():
             tr, S, meta = run_history(H, A["vars"], f"{job.get('tag', 'r')}-{job.get('seed', 0)}-{i}", job.get("cfg", {}))
             if job.get("probe", True):
                 # probes run on the same objects; append their events to the same trace
-                PH = probe_battery(A, sorted(S))
+                PH = probe_battery(A, sorted(S), rng.randrange(3))
                 tr2 = continue_history(PH, S, meta, A["vars"], job.get("cfg", {}))
                 tr["ev"].extend(tr2)
             pass
@@ -503,7 +519,8 @@ def main():
         for i, H in enumerate(job["histories"]):
             tr, S, meta = run_history(H, A["vars"], f"{job.get('tag', 'l')}-{i}", job.get("cfg", {}))
             if job.get("probe", True):
-                tr["ev"].extend(continue_history(probe_battery(A, sorted(S)), S, meta, A["vars"], job.get("cfg", {})))
+                tr["ev"].extend(continue_history(probe_battery(A, sorted(S), i % 3), S, meta, A["vars"],
+                                                 job.get("cfg", {})))
             pass
             n_calls += len(tr["ev"])
             out.write(tr, nontrivial_key=[H], outcome="trace", sample={"history": H[:8]})
